@@ -749,6 +749,11 @@ func (e *Eval) tripCount(fr *frame, h *ssa.BasicBlock, body map[*ssa.BasicBlock]
 	if !body[cont] {
 		return -1, nil, nil, false
 	}
+	if body[exit] {
+		// both arms of the header's branch stay inside the loop: it is not the loop's exit test
+		// (a loop tested at the bottom, such as `for i := range n` with more than one block)
+		return -1, nil, nil, false
+	}
 	neg := false
 	cv := ifi.Cond
 	for {
